@@ -222,7 +222,7 @@ impl AsRef<str> for StreamProtocol {
 /// sequence with inline storage for VCAP elements; exceeding it is reported as
 /// UNDECIDED, never as a violation.  Derefs to a real slice, so `iter`, `split_at`,
 /// `is_empty`, `len` are the real slice methods and `slice::Iter` is the real iterator.
-pub(crate) const VCAP: usize = 4;
+pub(crate) const VCAP: usize = 6;
 pub(crate) struct Vec<T> {
     items: [T; VCAP],
     len: usize,
@@ -567,12 +567,27 @@ fn set_mask(s: &HashSet<StreamProtocol>) -> u8 {
     mask
 }
 
+/// The reusable `protocol_buffer` is scratch state: `remove` and `from_full_sets` leave their
+/// output in it, so the next report starts from ANY content (here: empty or one stale name).
+fn any_stale_buffer() -> Vec<StreamProtocol> {
+    let mut b: Vec<StreamProtocol> = Vec::new();
+    let k: u8 = kani::any();
+    match k {
+        0 => b.push(StreamProtocol::new(REMOTE_NAMES[0])),
+        1 => b.push(StreamProtocol::new(REMOTE_NAMES[1])),
+        2 => b.push(StreamProtocol::new(REMOTE_NAMES[2])),
+        3 => b.push(StreamProtocol::new(REMOTE_NAMES[3])),
+        _ => {}
+    }
+    b
+}
+
 #[kani::proof]
-#[kani::unwind(5)]
+#[kani::unwind(8)]
 fn remote_added_report_is_folded() {
     let (r, r_mask) = any_proto_set();
     let (to_add, add_mask) = any_proto_set();
-    let mut env = RemoteEnv { remote_supported_protocols: r, protocol_buffer: Vec::new() };
+    let mut env = RemoteEnv { remote_supported_protocols: r, protocol_buffer: any_stale_buffer() };
     let mut probe = Probe { local: 0, remote: r_mask, events: 0 }; // inv_remote
     env.report_added(&mut probe, to_add);
     kani::assert(
@@ -591,11 +606,11 @@ fn remote_added_report_is_folded() {
 }
 
 #[kani::proof]
-#[kani::unwind(5)]
+#[kani::unwind(8)]
 fn remote_removed_report_is_folded() {
     let (r, r_mask) = any_proto_set();
     let (to_remove, rm_mask) = any_proto_set();
-    let mut env = RemoteEnv { remote_supported_protocols: r, protocol_buffer: Vec::new() };
+    let mut env = RemoteEnv { remote_supported_protocols: r, protocol_buffer: any_stale_buffer() };
     let mut probe = Probe { local: 0, remote: r_mask, events: 0 }; // inv_remote
     env.report_removed(&mut probe, to_remove);
     kani::assert(
@@ -611,7 +626,7 @@ fn remote_removed_report_is_folded() {
 
 /// canary: "a Removed report never changes the fold" must FAIL
 #[kani::proof]
-#[kani::unwind(5)]
+#[kani::unwind(8)]
 fn canary_remote_removed_changes_nothing() {
     let (r, r_mask) = any_proto_set();
     let (to_remove, _rm_mask) = any_proto_set();
